@@ -361,11 +361,11 @@ NSHARDS = 16
 
 
 def shards(tier, seed):
-    bound = 6 if tier == "quick" else 7
-    out = [{"name": f"enum{i}", "kind": "enum", "i": i, "bound": bound, "budget_s": 150 if tier == "quick" else 1500}
+    bound = 6 if tier == "quick" else 8
+    out = [{"name": f"enum{i}", "kind": "enum", "i": i, "bound": bound, "budget_s": 150 if tier == "quick" else 3600}
            for i in range(NSHARDS)]
-    out += [{"name": f"rand{i}", "kind": "rand", "i": i, "count": 20 if tier == "quick" else 700,
-             "budget_s": 60 if tier == "quick" else 600} for i in range(NSHARDS)]
+    out += [{"name": f"rand{i}", "kind": "rand", "i": i, "count": 20 if tier == "quick" else 3000,
+             "budget_s": 60 if tier == "quick" else 3600} for i in range(NSHARDS)]
     return out
 
 
